@@ -322,6 +322,37 @@ Proof.
   - rewrite q_exp_loop_spec. apply (Rmul_1_l R).
 Qed.
 
+(* the extension packaged as a field in the sense of Base/FieldOps.v: every theorem stated "for every FOps with
+   FLaws" (polynomials, FFT, ...) applies to the extension fields as well *)
+Definition q_inv_total (a : F * F) : F * F := match q_inv O I false a with Some x => x | None => q0 end.
+Definition q_ops : FOps (F * F) := {|
+  fzero := q0; fone := q1; fadd := qadd; fsub := q_sub O; fmul := qmul; fneg := q_neg O;
+  fdouble := q_double O; fsquare := q_square I; finv := q_inv_total;
+  fdiv := fun a b => qmul a (q_inv_total b); feqb := q_eqb O; fofz := fun z => q_from_base O (fofz O z) |}.
+
+Theorem q_laws : (forall s, s *f s <> qs_disc O c) -> FLaws q_ops.
+Proof.
+  intros NS. pose proof q_ring as R.
+  constructor; cbn [q_ops fzero fone fadd fsub fmul fneg fdouble fsquare finv fdiv feqb]; intros.
+  - apply (Radd_comm R).
+  - apply (Radd_assoc R).
+  - apply (Radd_0_l R).
+  - apply (Rmul_comm R).
+  - apply (Rmul_assoc R).
+  - apply (Rmul_1_l R).
+  - apply (Rdistr_l R).
+  - apply (Rsub_def R).
+  - apply (Ropp_def R).
+  - apply q_double_spec.
+  - apply q_square_spec.
+  - unfold q_one, q_zero. intros E. injection E as E. apply (fl_one_neq_zero O L). exact E.
+  - unfold q_inv_total. destruct (q_inv_spec NS false a H) as (ia & E & M). rewrite E.
+    rewrite (Rmul_comm R). exact M.
+  - unfold q_inv_total. rewrite q_inv_zero. reflexivity.
+  - reflexivity.
+  - apply q_eqb_spec.
+Qed.
+
 End QuadModel.
 
 (* ================================================================== CubeExtension<B> model *)
@@ -502,6 +533,35 @@ Proof.
   unfold c_exp. rewrite Z2Nat.inj_pos. destruct (c_eqb O a z3) eqn:E.
   - apply c_eqb_spec in E. subst a. symmetry. apply c_pow_zero. lia.
   - rewrite c_exp_loop_spec. apply (Rmul_1_l R).
+Qed.
+
+Definition c_inv_total (a : F * F * F) : F * F * F := match c_inv O I false a with Some x => x | None => z3 end.
+Definition c_ops : FOps (F * F * F) := {|
+  fzero := z3; fone := o3; fadd := cadd; fsub := c_sub O; fmul := cmul; fneg := c_neg O;
+  fdouble := c_double O; fsquare := c_square I; finv := c_inv_total;
+  fdiv := fun a b => cmul a (c_inv_total b); feqb := c_eqb O; fofz := fun z => c_from_base O (fofz O z) |}.
+
+Theorem c_laws : Consts -> det <> zero -> cs_no_root O u v -> FLaws c_ops.
+Proof.
+  intros K D NR. pose proof c_ring as R.
+  constructor; cbn [c_ops fzero fone fadd fsub fmul fneg fdouble fsquare finv fdiv feqb]; intros.
+  - apply (Radd_comm R).
+  - apply (Radd_assoc R).
+  - apply (Radd_0_l R).
+  - apply (Rmul_comm R).
+  - apply (Rmul_assoc R).
+  - apply (Rmul_1_l R).
+  - apply (Rdistr_l R).
+  - apply (Rsub_def R).
+  - apply (Ropp_def R).
+  - apply c_double_spec.
+  - apply c_square_spec.
+  - unfold c_one, c_zero. intros E. injection E as E. apply (fl_one_neq_zero O L). exact E.
+  - unfold c_inv_total. destruct (c_inv_spec K D NR false a H) as (ia & E & M). rewrite E.
+    rewrite (Rmul_comm R). exact M.
+  - unfold c_inv_total. rewrite c_inv_zero. reflexivity.
+  - reflexivity.
+  - apply c_eqb_spec.
 Qed.
 
 End CubeModel.
